@@ -370,6 +370,11 @@ class Inotify:
                                     self._path_for_wd[moved_wd] = _move_to_path
                     src_path = os.path.join(wd_path, name)
                     inotify_event = InotifyEvent(wd, mask, cookie, name, src_path)
+                    if self.is_recursive and inotify_event.is_directory and src_path not in self._wd_for_path:
+                        # A directory that arrived from outside the watched tree (or that was renamed
+                        # before its watch could be added) is not covered yet: watch it and what it holds.
+                        with contextlib.suppress(OSError):
+                            self._add_dir_watch(src_path, self._event_mask, recursive=True)
 
                 if inotify_event.is_ignored:
                     # Clean up book-keeping for deleted watches.
